@@ -2,8 +2,8 @@
    `content` ranges over every unit-bearing dataclass of data_types.py that the property lists
    (pdf, plain, html, odg, odf, e-mail, pptx, ppt, odp, xlsx, xls, ods, epub, rtf); `units c` is
    [(u.get_metadata().unit_number, u.get_text()) for u in c.iterate_units()], `full_text c` is c.get_full_text(). *)
-From Coq Require Import ZArith List Bool Sorted.
-From S2T Require Import Lib.PyStr C03.Lib C03.Model C03.Proofs C03.Extract C03.Docx C03.ProofsX C03.ProofsM C03.Sect C03.ProofsS C03.ProofsD.
+From Coq Require Import ZArith List Bool Sorted Permutation.
+From S2T Require Import Lib.PyStr C03.Lib C03.Model C03.Proofs C03.Extract C03.Docx C03.ProofsX C03.ProofsM C03.Sect C03.ProofsS C03.ProofsD C03.Odf C03.ProofsO.
 Import ListNotations.
 Open Scope Z_scope.
 
@@ -332,3 +332,52 @@ Theorem C03_odt_merged_path_keeps_tokens :
   forall base path t, In t path -> In t (merge_path base path).
 Proof. exact merge_path_incl. Qed.
 Print Assumptions C03_odt_merged_path_keeps_tokens.
+
+(* ---------------------------------------------------------------- ODP / ODS unit assembly (extractor side) *)
+(* _iter_slide_frames: shape groups (draw:g), also nested, are transparent; other children contribute nothing *)
+Theorem C03_odp_groups_transparent :
+  forall cs rest f, page_frames (ShGroup cs :: rest) = page_frames cs ++ page_frames rest
+                    /\ page_frames (ShFrame f :: rest) = f :: page_frames rest
+                    /\ page_frames (ShOther :: rest) = page_frames rest.
+Proof. intros cs rest f. exact (conj (page_frames_group cs rest) (conj (page_frames_frame f rest) (page_frames_other rest))). Qed.
+Print Assumptions C03_odp_groups_transparent.
+
+(* every non-empty paragraph text of a page's frames — whatever the nesting, positions (sort) and styles
+   (title/body/other) — is in exactly one of the slide's text fields, with its multiplicity, and nothing else is *)
+Theorem C03_odp_slide_texts_exact :
+  forall num children, Permutation (slide_texts (extract_slide num children)) (page_texts children).
+Proof. exact extract_slide_texts. Qed.
+Print Assumptions C03_odp_slide_texts_exact.
+
+(* read_odp: slides are numbered 1..n, and unit k carries number k and exactly page k's texts *)
+Theorem C03_odp_read_numbers : forall pages, wf_source (COdp (read_odp_slides pages)) = true.
+Proof. exact read_odp_wf. Qed.
+Print Assumptions C03_odp_read_numbers.
+
+Theorem C03_odp_unit_of_page :
+  forall pages k page, nth_error pages k = Some page ->
+    exists l, Permutation l (page_texts page)
+              /\ nth_error (odp_units (read_odp_slides pages)) k = Some (mkU (Z.of_nat k + 1) (joinNL l)).
+Proof. exact read_odp_unit_texts. Qed.
+Print Assumptions C03_odp_unit_of_page.
+
+(* _extract_sheet: the cell texts returned for a sheet are exactly (order, multiplicity) the display texts of the
+   sheet's cells after wrapper flattening and repeat expansion — trimming of trailing rows/columns never removes a
+   cell that carries a value *)
+Theorem C03_ods_sheet_cells_exact :
+  forall children, List.concat (sheet_lines children) = source_cell_texts children.
+Proof. exact sheet_lines_exact. Qed.
+Print Assumptions C03_ods_sheet_cells_exact.
+
+(* read_ods: unit k carries number k, sheet k's name and sheet k's text only *)
+Theorem C03_ods_unit_of_sheet :
+  forall tables k name children, nth_error tables k = Some (name, children) ->
+    nth_error (ods_units (read_ods_sheets tables)) k
+    = Some (mkU (Z.of_nat k + 1) (strip (name ++ [NL] ++ strip (sheet_text children)))).
+Proof. exact read_ods_unit. Qed.
+Print Assumptions C03_ods_unit_of_sheet.
+
+Theorem C03_ods_read_numbers :
+  forall tables, unit_numbers (ods_units (read_ods_sheets tables)) = zseq 1 (List.length tables).
+Proof. exact read_ods_numbers. Qed.
+Print Assumptions C03_ods_read_numbers.
